@@ -1,4 +1,5 @@
 import PikaVerif.Lemmas.Sched
+import PikaVerif.Lemmas.SchedCo3
 /-!
 # C01 — every submitted task runs exactly once, on one worker at a time
 
@@ -8,8 +9,10 @@ suspensions, steals and recyclings and every interleaving of the instrumented op
 "Object" = one `thread_data` instance; "actor" = one OS thread.
 
 The body-entered-exactly-once clause also depends on the coroutine implementation (the first
-phase enters the body, later phases resume it); that part is observed by the E2 monitors
-(entry counters per task) and is not a theorem here.
+phase enters the body, later phases resume it).  The first version of this file left that part to
+the E2 monitors (entry counters per task); the follow-up C01b (second half of this file) adds the
+coroutine/body layer `Model/SchedCo.lean` and proves it, together with the progress ("run to
+completion") theorems.
 -/
 namespace PikaVerif.C01
 open PikaVerif PikaVerif.Sched
@@ -136,5 +139,406 @@ def exampleLog : List Ev :=
    .restore1 1 1 ⟨sActive, 1, 1⟩ ⟨sSuspended, 1, 2⟩]
 
 example : (runLog step init exampleLog).isSome = true := by decide
+
+/-! ## Follow-up C01b — the coroutine/body layer (`Model/SchedCo.lean`) -/
+
+/-- reachable states of the scheduler model with the coroutine/body layer -/
+def ReachableCo (s : SchedCo.St) : Prop := ∃ log, runLog SchedCo.step SchedCo.init log = some s
+
+theorem co_inv_of_reachable {s : SchedCo.St} (h : ReachableCo s) : SchedCo.Inv s := by
+  obtain ⟨log, hl⟩ := h
+  exact SchedCo.inv_of_accepted hl
+
+/-- **The layer refines the protocol model.**  Erasing the `co.*` events of an accepted log gives a
+    log accepted by `Sched.step`; so every theorem above holds for the base component of every
+    state reachable with the layer. -/
+theorem C01_layer_refines_protocol (log : List SchedCo.Ev) (s : SchedCo.St)
+    (h : runLog SchedCo.step SchedCo.init log = some s) :
+    runLog Sched.step Sched.init (SchedCo.baseLog log) = some s.base ∧ Reachable s.base := by
+  have := SchedCo.base_accepts log SchedCo.init s h
+  exact ⟨this, ⟨_, this⟩⟩
+
+/-- **Body entered at most once per incarnation, exactly once if it terminated** (log form).
+    For every accepted log and every thread object `o`: the number of thread-function entries
+    (`co.enter`) after the last `task.new`/`task.rebind` of `o` is at most one, returns never exceed
+    entries, and if the incarnation has reached `terminated` the function was entered exactly once
+    and returned exactly once.  `entriesSince`/`returnsSince` are functions of the log alone. -/
+theorem C01_body_entered_once (log : List SchedCo.Ev) (s : SchedCo.St)
+    (h : runLog SchedCo.step SchedCo.init log = some s) (o : Nat) :
+    SchedCo.entriesSince o log ≤ 1 ∧ SchedCo.returnsSince o log ≤ SchedCo.entriesSince o log ∧
+    ((s.base.obj o).live = true → (s.base.obj o).fresh = false → (s.base.obj o).w.st = sTerminated →
+      SchedCo.entriesSince o log = 1 ∧ SchedCo.returnsSince o log = 1) := by
+  have hi := (SchedCo.inv_of_accepted h).2 o
+  have hc := SchedCo.log_entries log SchedCo.init s h o
+  have e0 : (SchedCo.init.co o).entries = 0 := rfl
+  have x0 : (SchedCo.init.co o).exits = 0 := rfl
+  rw [e0] at hc; rw [x0] at hc
+  unfold SchedCo.entriesSince SchedCo.returnsSince
+  rw [← hc.1, ← hc.2, hi.entriesEq, hi.exitsEq]
+  refine ⟨by split <;> omega, ?_, ?_⟩
+  · split <;> split <;> simp_all
+  · intro hl hf ht
+    have := hi.termReturned hl hf ht
+    simp [this]
+
+/-- **Between two (re)initialisations the body is entered at most once** (segment form).  Split an
+    accepted log anywhere: a segment that contains no `task.new`/`task.rebind` of `o` contains at
+    most one `co.enter` of `o` — and none at all if the function had been entered before the
+    segment started. -/
+theorem C01_body_entered_once_segment (pre seg : List SchedCo.Ev) (s : SchedCo.St)
+    (h : runLog SchedCo.step SchedCo.init (pre ++ seg) = some s) (o : Nat)
+    (hseg : seg.all (fun e => !SchedCo.isReinit o e) = true) :
+    SchedCo.entriesSince o pre + (seg.filter (SchedCo.isEnter o)).length ≤ 1 := by
+  have h1 := C01_body_entered_once (pre ++ seg) s h o
+  unfold SchedCo.entriesSince at h1 ⊢
+  rw [List.foldl_append, SchedCo.foldl_entF_noReinit o seg _ hseg] at h1
+  exact h1.1
+
+/-- **A later activation never re-enters.**  Once the thread function of the current incarnation
+    has been entered, the model accepts no second entry: every further activation is a `co.resume`,
+    which continues after the yield the body stopped at (and is accepted only then). -/
+theorem C01_no_reentry (s : SchedCo.St) (hr : ReachableCo s) (a o : Nat)
+    (he : (s.co o).entries ≠ 0) :
+    SchedCo.step s (.coEnter a o) = none ∧
+    (∀ s', SchedCo.step s (.coResume a o) = some s' →
+      (s.co o).pc.isYielded = true ∧ (s'.co o).pc = .inBody ∧ (s'.co o).entries = (s.co o).entries) := by
+  have hi := (co_inv_of_reachable hr).2 o
+  constructor
+  · simp only [SchedCo.step]
+    split
+    · rename_i hg
+      have := hi.entriesEq
+      simp [hg.2.2.2.1] at this
+      exact absurd this he
+    · rfl
+  · intro s' h
+    simp only [SchedCo.step] at h
+    split at h
+    · rename_i hg
+      simp only [Option.some.injEq] at h
+      subst h
+      simp [hg.2.2.2.1]
+    · simp at h
+
+/-- **Each phase activates the body exactly once, and `terminated` comes from the body's return.**
+    When the scheduling loop sees a phase end with request `r`, the coroutine was switched to in
+    this phase, and either the body is at a yield that asked for exactly `r` (one of pending,
+    suspended, pending_boost), or the thread function has returned and `r = terminated`.  In
+    particular a `terminated` request is only ever produced by the return of the thread function. -/
+theorem C01_phase_result_from_body (s s' : SchedCo.St) (hr : ReachableCo s) (a o r : Nat)
+    (h : SchedCo.step s (.base (.phaseEnd a o r)) = some s') :
+    (s.co o).ran = true ∧
+    (((s.co o).pc = .yielded r ∧ SchedCo.okReq r = true ∧ r ≠ sTerminated) ∨
+     ((s.co o).pc = .returned ∧ r = sTerminated ∧ (s.co o).exits = 1)) := by
+  have hi := (co_inv_of_reachable hr).2 o
+  obtain ⟨_, hco⟩ := SchedCo.step_base s s' _ h
+  simp only [SchedCo.coBase] at hco
+  split at hco
+  · rename_i hg
+    refine ⟨hg.1, ?_⟩
+    rcases hg.2 with hy | ⟨hret, ht⟩
+    · left
+      have hk := hi.okReq
+      rw [hy] at hk
+      simp only [SchedCo.CoPc.okReq] at hk
+      refine ⟨hy, hk, ?_⟩
+      intro ht; rw [ht] at hk; simp [SchedCo.okReq, sTerminated, sPending, sBoost, sSuspended] at hk
+    · right
+      have := hi.exitsEq
+      simp [hret] at this
+      exact ⟨hret, ht, this⟩
+  · simp at hco
+
+/-- **The state word becomes `terminated` only after the body returned.** -/
+theorem C01_terminated_only_after_return (s : SchedCo.St) (hr : ReachableCo s) (o : Nat)
+    (hl : (s.base.obj o).live = true) (hf : (s.base.obj o).fresh = false)
+    (ht : (s.base.obj o).w.st = sTerminated) :
+    (s.co o).pc = .returned ∧ (s.co o).entries = 1 ∧ (s.co o).exits = 1 := by
+  have hi := (co_inv_of_reachable hr).2 o
+  have hp := hi.termReturned hl hf ht
+  have h1 := hi.entriesEq
+  have h2 := hi.exitsEq
+  simp [hp] at h1 h2
+  exact ⟨hp, h1, h2⟩
+
+/-- **An entered, unfinished body is never lost and never duplicated.**  In every reachable state, a
+    thread object whose function has been entered and has not returned is either *active* — owned
+    by exactly one actor (the `owner` field) — or *pending* / *pending_boost* with exactly one
+    scheduling token (queue entry, holder or pusher), or *suspended* with no token.  While the body
+    is executing (`inBody`) it is in the phase of that one owner. -/
+theorem C01_open_body_located (s : SchedCo.St) (hr : ReachableCo s) (o : Nat)
+    (hl : (s.base.obj o).live = true) (hopen : (s.co o).pc.open = true) :
+    (((s.base.obj o).w.st = sActive ∧ (s.base.obj o).owner.isSome = true ∧ tokens (s.base.obj o) = 0) ∨
+     (pendingish (s.base.obj o).w = true ∧ (s.base.obj o).owner = none ∧ tokens (s.base.obj o) = 1) ∨
+     ((s.base.obj o).w.st = sSuspended ∧ (s.base.obj o).owner = none ∧ tokens (s.base.obj o) = 0)) ∧
+    ((s.co o).pc = .inBody → (s.base.obj o).inPhase = true ∧ (s.base.obj o).w.st = sActive) := by
+  obtain ⟨hb, hc⟩ := co_inv_of_reachable hr
+  have hi := hc o
+  have bi := hb o
+  have hnf : (s.base.obj o).fresh = false := by
+    cases hf : (s.base.obj o).fresh with
+    | false => rfl
+    | true => have := hi.freshReady hf; rw [this] at hopen; simp [SchedCo.CoPc.open] at hopen
+  have hnt : (s.base.obj o).w.st ≠ sTerminated := by
+    intro ht
+    have := hi.termReturned hl hnf ht
+    rw [this] at hopen; simp [SchedCo.CoPc.open] at hopen
+  have hown : (s.base.obj o).owner.isSome = true ↔ (s.base.obj o).w.st = sActive := bi.ownerActive hl
+  constructor
+  · rcases hi.stValid hl with h | h | h | h | h
+    · left
+      refine ⟨h, hown.2 h, bi.tokNone hl (by simp [pendingish, h, sActive, sPending, sBoost, sSuspended])⟩
+    · right; left
+      have hp : pendingish (s.base.obj o).w = true := by simp [pendingish, h]
+      refine ⟨hp, ?_, bi.tokPending hl hnf hp⟩
+      cases ho : (s.base.obj o).owner with
+      | none => rfl
+      | some x => have := hown.1 (by simp [ho]); rw [h] at this; exact absurd this (by decide)
+    · right; left
+      have hp : pendingish (s.base.obj o).w = true := by simp [pendingish, h]
+      refine ⟨hp, ?_, bi.tokPending hl hnf hp⟩
+      cases ho : (s.base.obj o).owner with
+      | none => rfl
+      | some x => have := hown.1 (by simp [ho]); rw [h] at this; exact absurd this (by decide)
+    · right; right
+      refine ⟨h, ?_, bi.tokNone hl (by simp [pendingish, h, sActive, sPending, sBoost, sSuspended])⟩
+      cases ho : (s.base.obj o).owner with
+      | none => rfl
+      | some x => have := hown.1 (by simp [ho]); rw [h] at this; exact absurd this (by decide)
+    · exact absurd h hnt
+  · intro hb
+    have := (hi.inBodyPhase hb).1
+    exact ⟨this, hown.1 (bi.phaseOwner this)⟩
+
+/-! ### Run to completion: progress in the house style
+
+`Internal` events continue an operation that is already in progress (a queue insertion owed by a
+pusher, a pop, the activation exchange, the phase with its coroutine switch, the body's next yield
+or its return, the state store after the phase, the steps of a wake request in flight).  The
+remaining events start something new or do not advance anything: creation / recycling /
+destruction of a thread object, the entry of a new wake request (`sts.enter`; C02),
+`abort_all_suspended_threads` (`sw.set` on a suspended thread), the re-read of the restart state
+(`sw.setex`) and the harness' body notes. -/
+
+def Internal : SchedCo.Ev → Bool
+  | .base (.new _ _ _) => false
+  | .base (.rebind _ _ _) => false
+  | .base (.destroy _ _ _) => false
+  | .base (.stsEnter _ _ _) => false
+  | .base (.setex _ _ _ _) => false
+  | .base (.set _ _ before _) => before.st != sSuspended
+  | .base (.bodyEnter _ _) => false
+  | .base (.bodyExit _ _) => false
+  | _ => true
+
+/-- no operation in progress can take a step -/
+def Stuck (s : SchedCo.St) : Prop := ∀ e, Internal e = true → SchedCo.step s e = none
+
+/-- **Progress ("run to completion").**  In a reachable state in which the model accepts no internal
+    event, every thread object that was ever constructed has been scheduled, is at rest (no queue
+    entry, holder, pusher or owner, no phase running), and its current incarnation is either
+    *terminated* — its function was entered exactly once and returned exactly once — or
+    *legitimately suspended*: the state word is `suspended` and the body sits at a yield that asked
+    for exactly that (it waits for a wake-up; C02 shows that a wake-up request issued for it puts it
+    back into a queue).  So the runtime cannot come to rest with a task that was never started,
+    half run, or runnable. -/
+theorem C01_progress (s : SchedCo.St) (hr : ReachableCo s) (hstuck : Stuck s) (o : Nat)
+    (hl : (s.base.obj o).live = true) :
+    (s.base.obj o).fresh = false ∧ AtRest (s.base.obj o) ∧ (s.base.obj o).inPhase = false ∧
+    (((s.base.obj o).w.st = sTerminated ∧ (s.co o).pc = .returned ∧ (s.co o).entries = 1 ∧ (s.co o).exits = 1) ∨
+     ((s.base.obj o).w.st = sSuspended ∧ (s.co o).pc = .yielded sSuspended ∧ (s.co o).entries = 1 ∧ (s.co o).exits = 0)) := by
+  obtain ⟨hb, hc⟩ := co_inv_of_reachable hr
+  have hi := hc o
+  have bi := hb o
+  -- helper: an enabled internal event contradicts `Stuck`
+  have stuck : ∀ e, Internal e = true → (SchedCo.step s e).isSome = true → False := by
+    intro e hI hs
+    rw [hstuck e hI] at hs
+    simp at hs
+  have hown : (s.base.obj o).owner.isSome = true ↔ (s.base.obj o).w.st = sActive := bi.ownerActive hl
+  -- not fresh: a fresh object can be queued
+  have hnf : (s.base.obj o).fresh = false := by
+    cases hf : (s.base.obj o).fresh with
+    | false => rfl
+    | true =>
+      have h5 := bi.tokFresh hl hf
+      have hq : (s.base.obj o).q = 0 := by have := h5.1; simp only [tokens] at this; omega
+      exact (stuck (.base (.push 0 o)) rfl (SchedCo.en_push s 0 o hl h5.2.1 (Or.inl ⟨hf, hq⟩))).elim
+  -- not active: the owner can always take its next step
+  have hna : (s.base.obj o).w.st ≠ sActive := by
+    intro hact
+    have hos := hown.2 hact
+    cases ho : (s.base.obj o).owner with
+    | none => simp [ho] at hos
+    | some a =>
+      cases hp : (s.base.obj o).inPhase with
+      | false =>
+        cases hrp : (s.base.obj o).ranPhase with
+        | false => exact stuck _ rfl (SchedCo.en_phaseBegin s a o hl ho hp hrp)
+        | true => exact stuck _ rfl (SchedCo.en_restore1 s a o hl ho hp hrp)
+      | true =>
+        cases hran : (s.co o).ran with
+        | false =>
+          have h5 := hi.notRanPc hp hran
+          cases hpc : (s.co o).pc with
+          | ready => exact stuck _ rfl (SchedCo.en_coEnter s a o hl ho hp hpc hran)
+          | inBody => exact absurd hpc h5.1
+          | yielded r => exact stuck _ rfl (SchedCo.en_coResume s a o r hl ho hp hpc hran)
+          | returned => exact absurd hpc h5.2
+        | true =>
+          cases hpc : (s.co o).pc with
+          | ready => have := hi.readyNotRan hpc; rw [hran] at this; cases this
+          | inBody => exact stuck _ rfl (SchedCo.en_coReturn s a o hl ho hp hpc)
+          | yielded r =>
+            have hk := hi.okReq
+            rw [hpc] at hk
+            have hne : r ≠ sActive := by
+              intro h; rw [h] at hk; simp [SchedCo.CoPc.okReq, SchedCo.okReq, sActive, sPending, sSuspended, sBoost] at hk
+            exact stuck _ rfl (SchedCo.en_phaseEnd_yield s a o r hl ho hp hpc hran hne)
+          | returned => exact stuck _ rfl (SchedCo.en_phaseEnd_return s a o hl ho hp hpc hran)
+  -- not pending / pending_boost: the unique token can move
+  have hnp : pendingish (s.base.obj o).w = false := by
+    cases hpd : pendingish (s.base.obj o).w with
+    | false => rfl
+    | true =>
+      have htok := bi.tokPending hl hnf hpd
+      have hst : (s.base.obj o).w.st = sPending ∨ (s.base.obj o).w.st = sBoost := by
+        simpa [pendingish] using hpd
+      cases hpu : (s.base.obj o).pusher with
+      | some p =>
+        rcases hst with h | h
+        · exact (stuck _ rfl (SchedCo.en_push s p o hl h (Or.inr hpu))).elim
+        · have hI : Internal (.base (.set p o (s.base.obj o).w ⟨sPending, (s.base.obj o).w.ex, (s.base.obj o).w.tag + 1⟩)) = true := by
+            simp [Internal, h, sBoost, sSuspended]
+          exact (stuck _ hI (SchedCo.en_setBoost s p o hl h hpu)).elim
+      | none =>
+        have hpend : (s.base.obj o).w.st = sPending := by
+          rcases hst with h | h
+          · exact h
+          · have := bi.boostPusher hl h; simp [hpu] at this
+        cases hh : (s.base.obj o).holder with
+        | some a => exact (stuck _ rfl (SchedCo.en_tagged s a o hl hh (bi.hold a hh) hpend)).elim
+        | none =>
+          have hq : 0 < (s.base.obj o).q := by
+            simp only [tokens, hpu, hh, b2n] at htok; simp at htok; omega
+          exact (stuck _ rfl (SchedCo.en_got s 0 o hl hh hq)).elim
+  have htok := bi.tokNone hl hnp
+  have hrest : AtRest (s.base.obj o) := by
+    have hq : (s.base.obj o).q = 0 := by simp only [tokens] at htok; omega
+    have hh : (s.base.obj o).holder = none := by
+      cases h : (s.base.obj o).holder with
+      | none => rfl
+      | some a => simp [tokens, h, b2n] at htok
+    have hp : (s.base.obj o).pusher = none := by
+      cases h : (s.base.obj o).pusher with
+      | none => rfl
+      | some a => simp [tokens, h, b2n] at htok
+    have ho : (s.base.obj o).owner = none := by
+      cases h : (s.base.obj o).owner with
+      | none => rfl
+      | some a => exact absurd (hown.1 (by simp [h])) hna
+    exact ⟨hq, hh, hp, ho⟩
+  have hph : (s.base.obj o).inPhase = false := by
+    cases h : (s.base.obj o).inPhase with
+    | false => rfl
+    | true => have := bi.phaseOwner h; rw [hrest.2.2.2] at this; simp at this
+  refine ⟨hnf, hrest, hph, ?_⟩
+  have hpp : ¬ ((s.base.obj o).w.st = sPending) ∧ ¬ ((s.base.obj o).w.st = sBoost) := by
+    simpa [pendingish] using hnp
+  rcases hi.stValid hl with h | h | h | h | h
+  · exact absurd h hna
+  · exact absurd h hpp.1
+  · exact absurd h hpp.2
+  · right
+    have hp := hi.suspYielded hl h
+    have h1 := hi.entriesEq
+    have h2 := hi.exitsEq
+    simp [hp] at h1 h2
+    exact ⟨h, hp, h1, h2⟩
+  · left
+    have hp := hi.termReturned hl hnf h
+    have h1 := hi.entriesEq
+    have h2 := hi.exitsEq
+    simp [hp] at h1 h2
+    exact ⟨h, hp, h1, h2⟩
+
+/-- **A task with a token can always be run (solo completion).**  In every reachable state, take a
+    constructed thread object that is pending or pending_boost — freshly created or re-queued after
+    a yield or a wake-up — and any actor `a0`.  Then the model accepts a continuation of at most
+    four events (the `pending_boost → pending` store and the queue insertion still owed by its
+    pusher, a pop, the activation exchange) after which the object is active and owned by a worker;
+    that worker is `a0` unless some worker already holds the popped entry.  No other object and no
+    other actor has to move: a runnable task never depends on anything but a free worker. -/
+theorem C01_token_runnable (s : SchedCo.St) (hr : ReachableCo s) (o a0 : Nat)
+    (hl : (s.base.obj o).live = true) (hp : pendingish (s.base.obj o).w = true) :
+    ∃ log s' a, log.length ≤ 4 ∧ runLog SchedCo.step s log = some s' ∧
+      (s'.base.obj o).w.st = sActive ∧ (s'.base.obj o).owner = some a ∧
+      ((s.base.obj o).holder = none → a = a0) := by
+  obtain ⟨hb, _⟩ := co_inv_of_reachable hr
+  have bi := hb o
+  have hst : (s.base.obj o).w.st = sPending ∨ (s.base.obj o).w.st = sBoost := by
+    simpa [pendingish] using hp
+  cases hf : (s.base.obj o).fresh with
+  | true =>
+    have h5 := bi.tokFresh hl hf
+    have hq : (s.base.obj o).q = 0 := by have := h5.1; simp only [tokens] at this; omega
+    have hh : (s.base.obj o).holder = none := by
+      cases h : (s.base.obj o).holder with
+      | none => rfl
+      | some x => have := h5.1; simp [tokens, h, b2n] at this
+    obtain ⟨log, s', hlen, hrun, h1, h2⟩ := SchedCo.run_from_pusher s a0 a0 o hl h5.2.1 hh (Or.inl ⟨hf, hq⟩)
+    exact ⟨log, s', a0, by omega, hrun, h1, h2, fun _ => rfl⟩
+  | false =>
+    have htok := bi.tokPending hl hf hp
+    cases hpu : (s.base.obj o).pusher with
+    | some p =>
+      have hh : (s.base.obj o).holder = none := by
+        cases h : (s.base.obj o).holder with
+        | none => rfl
+        | some x => simp [tokens, h, hpu, b2n] at htok
+      rcases hst with h | h
+      · obtain ⟨log, s', hlen, hrun, h1, h2⟩ := SchedCo.run_from_pusher s p a0 o hl h hh (Or.inr hpu)
+        exact ⟨log, s', a0, by omega, hrun, h1, h2, fun _ => rfl⟩
+      · obtain ⟨log, s', hlen, hrun, h1, h2⟩ := SchedCo.run_from_boost s p a0 o hl h hh hpu
+        exact ⟨log, s', a0, by omega, hrun, h1, h2, fun _ => rfl⟩
+    | none =>
+      have hpend : (s.base.obj o).w.st = sPending := by
+        rcases hst with h | h
+        · exact h
+        · have := bi.boostPusher hl h; simp [hpu] at this
+      cases hh : (s.base.obj o).holder with
+      | some a =>
+        obtain ⟨log, s', hlen, hrun, h1, h2⟩ := SchedCo.run_from_holder s a o hl hh (bi.hold a hh) hpend
+        exact ⟨log, s', a, by omega, hrun, h1, h2, fun hn => by simp at hn⟩
+      | none =>
+        have hq : 0 < (s.base.obj o).q := by
+          simp only [tokens, hpu, hh, b2n] at htok; simp at htok; omega
+        obtain ⟨log, s', hlen, hrun, h1, h2⟩ := SchedCo.run_from_queue s a0 o hl hh hq hpend
+        exact ⟨log, s', a0, by omega, hrun, h1, h2, fun _ => rfl⟩
+
+
+/-! ### Non-vacuity of the layer -/
+
+/-- create, queue, pop, activate; first phase enters the function, which yields `suspended`; a wake-up
+    (`set_thread_state`) re-queues it; the second phase resumes and the function returns -/
+def exampleLogCo : List SchedCo.Ev :=
+  [.base (.new 0 1 w0), .base (.push 0 1), .base (.got 1 1 w0 false),
+   .base (.tagged 1 1 w0 ⟨sActive, 1, 1⟩), .base (.phaseBegin 1 1),
+   .base (.setex 1 1 ⟨sActive, 1, 1⟩ ⟨sActive, 1, 1⟩), .coEnter 1 1, .base (.bodyEnter 1 1),
+   .coYield 1 1 sSuspended, .base (.phaseEnd 1 1 sSuspended),
+   .base (.restore1 1 1 ⟨sActive, 1, 1⟩ ⟨sSuspended, 1, 2⟩),
+   .base (.stsEnter 2 1 sPending), .base (.stsLoad 2 1 ⟨sSuspended, 1, 2⟩),
+   .base (.restore2 2 1 ⟨sSuspended, 1, 2⟩ ⟨sPending, 1, 3⟩), .base (.push 2 1), .base (.stsDone 2 1),
+   .base (.got 3 1 ⟨sPending, 1, 3⟩ false), .base (.tagged 3 1 ⟨sPending, 1, 3⟩ ⟨sActive, 1, 4⟩),
+   .base (.phaseBegin 3 1), .coResume 3 1, .base (.bodyExit 3 1), .coReturn 3 1 sTerminated,
+   .base (.phaseEnd 3 1 sTerminated), .base (.restore1 3 1 ⟨sActive, 1, 4⟩ ⟨sTerminated, 1, 5⟩)]
+
+example : (runLog SchedCo.step SchedCo.init exampleLogCo).isSome = true := by decide
+example : SchedCo.entriesSince 1 exampleLogCo = 1 ∧ SchedCo.returnsSince 1 exampleLogCo = 1 := by decide
+/-- a second entry of the same incarnation, a resume of a body that never yielded, and a
+    `terminated` phase result without a return are all rejected -/
+example : (runLog SchedCo.step SchedCo.init (exampleLogCo.take 20 ++ [.coEnter 3 1])).isSome = false := by decide
+example : (runLog SchedCo.step SchedCo.init (exampleLogCo.take 6 ++ [.coResume 1 1])).isSome = false := by decide
+example : (runLog SchedCo.step SchedCo.init (exampleLogCo.take 21 ++ [.base (.phaseEnd 3 1 sTerminated)])).isSome = false := by decide
 
 end PikaVerif.C01
